@@ -68,6 +68,18 @@ func (r *Runner) Close() {
 	r.DB = nil
 }
 
+// ReopenResized closes the database and opens it with another SegmentSize (a configuration change between two runs
+// of an application); g, when given, sizes its values for the new segments from then on.
+func (r *Runner) ReopenResized(rng interface{ Int63n(int64) int64 }, lo, hi int64, g *Gen) bool {
+	r.Cfg.Seg = lo + rng.Int63n(hi-lo+1)
+	if g != nil {
+		g.Cfg = r.Cfg
+	}
+	r.C.Log("SegmentSize is now %d", r.Cfg.Seg)
+	r.C.Stat("reopens_with_another_segment_size", 1)
+	return r.Reopen()
+}
+
 func (r *Runner) Reopen() bool {
 	r.C.Log("reopen")
 	r.C.Stat("reopens", 1)
